@@ -41,8 +41,9 @@ class World:
     repository that also has the managed hooks installed), 'plain' (no git-ai)."""
 
     def __init__(self, root, mode="wrapper", prompt_storage="default", use_simgit=False,
-                 gitconfig=None, config_extra=None):
+                 gitconfig=None, config_extra=None, object_format=None):
         self.root = root
+        self.object_format = object_format
         self.mode = mode
         self.home = os.path.join(root, "home")
         self.bin = os.path.join(root, "bin")
@@ -170,7 +171,8 @@ class World:
     def init_repo(self, name="r0", bare=False):
         repo = os.path.join(self.root, name)
         os.makedirs(repo, exist_ok=True)
-        args = ["init", "-q"] + (["--bare"] if bare else [])
+        args = ["init", "-q"] + (["--bare"] if bare else []) + \
+            (["--object-format=" + self.object_format] if self.object_format else [])
         r = self.raw_git(repo, *args)
         assert r.code == 0, r
         if not bare and self.mode in ("hooks", "both"):
